@@ -122,69 +122,79 @@ def run(rep: Report, tier: str):
     rep.rule("C16.one-injection", "exactly one injection call with the payload, before the pickle is written", 2)
     rep.rule("C16.input-read-only", "input only read; overwrite = rename output onto input, no stray output", 2)
     rep.rule("C16.fresh-parse", "the parsed pickle comes from this wrapper's archive, not from a process-wide cache", 1)
-    names = [n for n, _ in MEMBERS]
-    for overwrite in (False, True):
-        f, log = interpret(repo, overwrite)
-        q, file = f.qualname, f.file
-        tag = f"overwrite={overwrite}"
-        writes = [x for x in log if x[0] == "write"]
-        injects = [x for x in log if x[0] == "inject"]
-        raised = [x for x in log if x[0] == "raised"]
-        if raised:
-            rep.bad("C16.rewrite-loop", q, f"raises:{raised[0][1]}", f"[{tag}] the insertion arm raises {raised[0][1]} on an ordinary archive", file, f.line)
-            continue
-        problems = []
-        wn = [w[1] for w in writes]
-        if wn != names:
-            missing = [n for n in names if n not in wn]
-            dup = sorted({n for n in wn if wn.count(n) > 1})
-            extra = [n for n in wn if n not in names]
-            problems.append(f"members written {wn} vs archive {names}" + (f"; missing {missing}" if missing else "") + (f"; written twice {dup}" if dup else "") + (f"; renamed/new {extra}" if extra else ""))
-        for w in writes:
-            nm, data = w[1], w[2]
-            orig = dict(MEMBERS).get(nm)
-            if nm.endswith("/data.pkl") and nm == "archive/data.pkl":
-                if not (isinstance(data, tuple) and data[0] == "INJECTED-PICKLE"):
-                    problems.append(f"the model pickle member is written as {data!r}, not as the re-serialised injected pickle")
-                elif data[1] != 1:
-                    problems.append(f"the model pickle was serialised after {data[1]} injection call(s)")
-            elif data != orig:
-                problems.append(f"member {nm} is written as {data!r} instead of its own bytes {orig!r}")
-        outs = {w[3] for w in writes}
-        if outs - {"OUTPUT.pt"}:
-            problems.append(f"members are written into {sorted(outs)}")
-        if problems:
-            rep.bad("C16.rewrite-loop", q, f"copy-discipline:{tag}", f"[{tag}] " + "; ".join(problems[:3]), file, f.line)
-        else:
-            rep.ok("C16.rewrite-loop", q, f"[{tag}] {len(writes)} members written once each, in order, verbatim except archive/data.pkl", f"{file}:{f.line}")
-        # one injection, with the payload, before the first write of the model pickle
-        if len(injects) == 1 and injects[0][2][:1] == ("PAYLOAD",):
-            i_inj = log.index(injects[0])
-            first_w = min((log.index(w) for w in writes), default=10**9)
-            if i_inj < first_w:
-                rep.ok("C16.one-injection", q, f"[{tag}] one {injects[0][1]}(payload) before anything is written", f"{file}:{f.line}")
-            else:
-                rep.bad("C16.one-injection", q, f"inject-after-write:{tag}", f"[{tag}] the injection happens after members were already written", file, f.line)
-        else:
-            rep.bad("C16.one-injection", q, f"injection-count:{len(injects)}", f"[{tag}] {len(injects)} injection call(s) {[(x[1], x[2]) for x in injects]}; exactly one with the payload is required", file, f.line)
-        # input path discipline
-        zin = [x for x in log if x[0] == "zip-open" and x[1] == "INPUT.pt"]
-        bad_modes = [x for x in zin if x[2] != "r"] + [x for x in log if x[0] == "open" and x[1] == "INPUT.pt" and any(c in str(x[2]) for c in "wax+")]
-        renames = [x for x in log if x[0] in ("rename", "move", "replace", "copy", "copyfile")]
-        removes = [x for x in log if x[0] == "remove"]
-        if bad_modes:
-            rep.bad("C16.input-read-only", q, f"input-opened-for-write:{tag}", f"[{tag}] the input archive is opened with mode {bad_modes[0][2]!r}", file, f.line)
-        elif not overwrite:
-            if renames or removes or any(w[3] == "INPUT.pt" for w in writes):
-                rep.bad("C16.input-read-only", q, "input-touched-without-overwrite", f"[{tag}] the input (or output) is renamed/removed/written although overwrite was not requested: {renames + removes}", file, f.line)
-            else:
-                rep.ok("C16.input-read-only", q, f"[{tag}] input opened read-only {len(zin)} time(s); nothing renamed or removed", f"{file}:{f.line}")
-        else:
-            ok = len(renames) == 1 and renames[0][1] == "OUTPUT.pt" and renames[0][2] == "INPUT.pt" and not any(r[1] == "INPUT.pt" for r in removes)
-            if ok:
-                rep.ok("C16.input-read-only", q, f"[{tag}] output renamed onto the input; no stray output left (removes: {removes})", f"{file}:{f.line}")
-            else:
-                rep.bad("C16.input-read-only", q, "overwrite-discipline", f"[{tag}] with overwrite the file operations are {renames + removes}; expected exactly `rename OUTPUT -> INPUT` and no removal of the input", file, f.line)
+    global MEMBERS
+    orders = [list(MEMBERS)]
+    if tier == "thorough":
+        import itertools
+        base = list(MEMBERS)
+        orders += [base[1:] + base[:1], base[::-1], base[3:] + base[:3], [base[1], base[0]] + base[2:], base + [("archive/extra/data.pkl.bak", b"bak")]]
+    all_orders = orders
+    for order_i, order in enumerate(all_orders):
+      MEMBERS = order
+      names = [n for n, _ in MEMBERS]
+      for overwrite in (False, True):
+          f, log = interpret(repo, overwrite)
+          q, file = f.qualname, f.file
+          tag = f"overwrite={overwrite}" + (f",order#{order_i}" if order_i else "")
+          writes = [x for x in log if x[0] == "write"]
+          injects = [x for x in log if x[0] == "inject"]
+          raised = [x for x in log if x[0] == "raised"]
+          if raised:
+              rep.bad("C16.rewrite-loop", q, f"raises:{raised[0][1]}", f"[{tag}] the insertion arm raises {raised[0][1]} on an ordinary archive", file, f.line)
+              continue
+          problems = []
+          wn = [w[1] for w in writes]
+          if wn != names:
+              missing = [n for n in names if n not in wn]
+              dup = sorted({n for n in wn if wn.count(n) > 1})
+              extra = [n for n in wn if n not in names]
+              problems.append(f"members written {wn} vs archive {names}" + (f"; missing {missing}" if missing else "") + (f"; written twice {dup}" if dup else "") + (f"; renamed/new {extra}" if extra else ""))
+          for w in writes:
+              nm, data = w[1], w[2]
+              orig = dict(MEMBERS).get(nm)
+              if nm.endswith("/data.pkl") and nm == "archive/data.pkl":
+                  if not (isinstance(data, tuple) and data[0] == "INJECTED-PICKLE"):
+                      problems.append(f"the model pickle member is written as {data!r}, not as the re-serialised injected pickle")
+                  elif data[1] != 1:
+                      problems.append(f"the model pickle was serialised after {data[1]} injection call(s)")
+              elif data != orig:
+                  problems.append(f"member {nm} is written as {data!r} instead of its own bytes {orig!r}")
+          outs = {w[3] for w in writes}
+          if outs - {"OUTPUT.pt"}:
+              problems.append(f"members are written into {sorted(outs)}")
+          if problems:
+              rep.bad("C16.rewrite-loop", q, f"copy-discipline:{tag}", f"[{tag}] " + "; ".join(problems[:3]), file, f.line)
+          else:
+              rep.ok("C16.rewrite-loop", q, f"[{tag}] {len(writes)} members written once each, in order, verbatim except archive/data.pkl", f"{file}:{f.line}")
+          # one injection, with the payload, before the first write of the model pickle
+          if len(injects) == 1 and injects[0][2][:1] == ("PAYLOAD",):
+              i_inj = log.index(injects[0])
+              first_w = min((log.index(w) for w in writes), default=10**9)
+              if i_inj < first_w:
+                  rep.ok("C16.one-injection", q, f"[{tag}] one {injects[0][1]}(payload) before anything is written", f"{file}:{f.line}")
+              else:
+                  rep.bad("C16.one-injection", q, f"inject-after-write:{tag}", f"[{tag}] the injection happens after members were already written", file, f.line)
+          else:
+              rep.bad("C16.one-injection", q, f"injection-count:{len(injects)}", f"[{tag}] {len(injects)} injection call(s) {[(x[1], x[2]) for x in injects]}; exactly one with the payload is required", file, f.line)
+          # input path discipline
+          zin = [x for x in log if x[0] == "zip-open" and x[1] == "INPUT.pt"]
+          bad_modes = [x for x in zin if x[2] != "r"] + [x for x in log if x[0] == "open" and x[1] == "INPUT.pt" and any(c in str(x[2]) for c in "wax+")]
+          renames = [x for x in log if x[0] in ("rename", "move", "replace", "copy", "copyfile")]
+          removes = [x for x in log if x[0] == "remove"]
+          if bad_modes:
+              rep.bad("C16.input-read-only", q, f"input-opened-for-write:{tag}", f"[{tag}] the input archive is opened with mode {bad_modes[0][2]!r}", file, f.line)
+          elif not overwrite:
+              if renames or removes or any(w[3] == "INPUT.pt" for w in writes):
+                  rep.bad("C16.input-read-only", q, "input-touched-without-overwrite", f"[{tag}] the input (or output) is renamed/removed/written although overwrite was not requested: {renames + removes}", file, f.line)
+              else:
+                  rep.ok("C16.input-read-only", q, f"[{tag}] input opened read-only {len(zin)} time(s); nothing renamed or removed", f"{file}:{f.line}")
+          else:
+              ok = len(renames) == 1 and renames[0][1] == "OUTPUT.pt" and renames[0][2] == "INPUT.pt" and not any(r[1] == "INPUT.pt" for r in removes)
+              if ok:
+                  rep.ok("C16.input-read-only", q, f"[{tag}] output renamed onto the input; no stray output left (removes: {removes})", f"{file}:{f.line}")
+              else:
+                  rep.bad("C16.input-read-only", q, "overwrite-discipline", f"[{tag}] with overwrite the file operations are {renames + removes}; expected exactly `rename OUTPUT -> INPUT` and no removal of the input", file, f.line)
+    MEMBERS = all_orders[0]
     # ---- same-member predicate
     c = repo.cls(W)
     getter = c.method("pickled", "property")
